@@ -396,6 +396,14 @@ def _work(arg):
     cases = []
     for i in range(ndl):
         ops = gen_dl(rng, 30)
+        if i % 8 == 0:
+            # close one library completely, open ANOTHER one right afterwards (the loader tends to reuse the handle
+            # address) and look up what the first one exported: the answer must come from the library that is open
+            first, second = rng.choice([("A", "B"), ("B", "A"), ("A", "SELF"), ("B", "B")])
+            name = rng.choice(sorted(EXPORTS[first]))
+            s_, t_ = rng.randrange(4), rng.randrange(4)
+            ops = [("OPEN", s_, first), ("LOAD", t_, s_, name), ("CALL", t_, 1.5), ("DROPSYM", t_), ("DROPDL", s_),
+                   ("OPEN", s_, second), ("LOAD", t_, s_, name), ("CALL", t_, 2.5)] + ops[:22]
         cases.append(("d%d_%d" % (chunk, i), "dl", ops))
     for i in range(nenv):
         ops = gen_env(rng, 12)
@@ -408,7 +416,7 @@ def _work(arg):
     for cid, kind, ops in cases:
         r = res.get(cid)
         S.n += 1
-        case = {"kind": kind, "ops": [list(o) for o in ops]}
+        case = {"kind": kind, "ops": [list(o) for o in ops], "build": "plain" if "-plain-" in exe else "gasan"}
         if r is None:
             S.inconc.append("case not executed")
             continue
@@ -491,6 +499,9 @@ def run(tier, replay=None):
         with open(replay) as fh:
             c = verdict.unhex_json(json.load(fh))["case"]
         ops = [tuple(o) for o in c["ops"]]
+        if c.get("build") == "plain":
+            exe = build.build_exe("plain", ["envdl.cpp"], ["src/env/get.cpp"],
+                                  link=["-Wl,--wrap=dlopen,--wrap=dlclose,--wrap=dlsym,--wrap=dlerror", "-rdynamic", "-ldl"])
         script = dl_script("r", ops) if c["kind"] == "dl" else env_script("r", ops)
         res = driver.run_cases(exe, [("r", script)], args=libs)
         r = res.get("r")
@@ -502,7 +513,13 @@ def run(tier, replay=None):
         S.distinct |= {1, 2}
     else:
         n = 16 if tier == "quick" else 64
-        for part in optrun.pmap(_work, [(tier, run_.seed, c, n, exe, libs) for c in range(n)]):
+        # a quarter of the chunks is repeated on an uninstrumented build: only there does the allocator hand the
+        # address of a closed library's handle to the next one (ASan's quarantine prevents it)
+        plain = build.build_exe("plain", ["envdl.cpp"], ["src/env/get.cpp"],
+                                link=["-Wl,--wrap=dlopen,--wrap=dlclose,--wrap=dlsym,--wrap=dlerror", "-rdynamic", "-ldl"])
+        jobs = [(tier, run_.seed, c, n, exe, libs) for c in range(n)] + \
+               [(tier, run_.seed, c, n, plain, libs) for c in range(0, n, 4)]
+        for part in optrun.pmap(_work, jobs):
             S.merge(part)
     sec = {}
     if not replay:
